@@ -1,5 +1,6 @@
 """C18 - a killed run always leaves a complete checkpoint file.
-Spec: FileSys.tla (file contents under system calls, kill anywhere), MC_FileSys (both write protocols), Trace_C18.
+Spec: FileSys.tla (file contents under system calls, kill anywhere), MC_FileSys (both write protocols), MpiFile.tla (several processes, inodes),
+Crash.tla (composition with the session), Trace_C18.
 Fault enumeration: every system call of every iteration x {before, after} x byte prefixes of every write, driven by the
 observed system-call trace; each killed run's log + what was found on disk + the resumed run is one trace for TLC."""
 import json
@@ -53,6 +54,10 @@ def run(chk, replay=None):
     if comp.rc != 0 or "No error has been found" not in comp.out:
         raise vt.MachineryError("Crash.tla (tmp+rename) failed:\n" + comp.tail())
     chk.model("Crash", "Crash_direct", what="Crash with the direct protocol: a killed run can be lost (NeverLost violated)", expect_violation="NeverLost")
+    # several processes (mpi_callback): only the root writes as coded; with every rank writing the target can be torn or truncated
+    chk.model("MpiFile", "MpiFile_root", what="MpiFile (3 ranks, root writes, inode semantics, kill anywhere): FileCompleteOrAbsent, Resumable")
+    chk.model("MpiFile", "MpiFile_all", what="MpiFile with every rank writing: invariant violated (truncation / torn write under a rename)",
+              expect_violation="FileCompleteOrAbsent")
     exe_serial = vt.build(*BUILDS[0][0])
     exe_mpi = vt.build(*BUILDS[1][0], **BUILDS[1][1])
     lib = build_interposer()
